@@ -86,5 +86,18 @@ def register(claim, na):
           "setter signals the change. It does not explore change sequences and does not model notify's watchers.",
           "trusts tokio::sync::watch semantics (receiver remembers the last seen version), notify's watch()/unwatch(), HashSet",
           "DESIGN.md section 5 C13")
-    for p in ["C03", "C05", "C08", "C11", "C12", "C14", "C15", "C18"]:
+    claim("C08", "other", "ownership chain of job-task JoinHandles (MIR def-use / who-may-call), dominance of take-over before the quit decision, THIR path shapes of the abort/graceful arms and the main task, pattern-semantics table of process wrappers, CLI quit condition structure",
+          "Decides necessary conditions: every job task's JoinHandle ends up owned by the worker before quit is examined (also for a job created in the "
+          "quitting action), Abort breaks and dropping the task set aborts every task with KillOnDrop children, the graceful path stops+deletes every "
+          "job and joins everything before leaving, the main task shuts the other workers down, quit()/quit_gracefully() record what was asked, the CLI "
+          "quits on an unmapped interrupt/terminate, and session/group wrappers follow the options. The time bound itself is not decided.",
+          "trusts tokio JoinHandle::abort / JoinSet::shutdown, process-wrap's group and session semantics; termination of the graceful path rests on C06/C07",
+          "DESIGN.md section 5 C08")
+    claim("C15", "other", "THIR path enumeration of the filter-error paths, the fs apply loops, error_hook and the main task's result match; who-constructs rule for RuntimeError; lock-guard live ranges",
+          "Decides on every path: one error-channel send per filter error / per failed path with the loop continuing, exactly one handler call and one "
+          "critical-slot check per received error, Exit pseudo-errors close the queue while real critical errors end the main task, constructed "
+          "RuntimeErrors are returned or sent, the watcher callback sends at most once, ErrorHook is consumed by elevation, handlers run without the lock. "
+          "Channel delivery itself is trusted.",
+          "trusts tokio mpsc (bounded, lossless for send().await), OnceLock; what user handlers do is opaque", "DESIGN.md section 5 C15")
+    for p in ["C03", "C05", "C11", "C12", "C14", "C18"]:
         na(p, PENDING)
